@@ -52,9 +52,8 @@ def _stats(evs):
         src[e["src"]] += 1
         for r in e["acc"]:
             acc[r["m"]] += 1
-        for r in e["rej"]:
-            if r[2] == "raised":
-                raised["%s:%s" % (r[0], r[1])] += 1
+        for r in e["raised"]:
+            raised["%s:%s" % (r[0], r[1])] += 1
     return {"events_by_source": dict(src), "accepted_by_step": dict(acc), "foreign_exceptions": dict(raised)}
 
 
@@ -71,7 +70,7 @@ def run(rep, tier):
                 "rationals, decimal sums forcing const_inequality's float path, polynomial identities with free variables (the code's own "
                 "normal forms, textbook identities, perturbations), equivalences of comparisons, huge constants. Non-trivial = some step "
                 "ACCEPTED the goal and the truth of the asserted sequent was decided by TLC with exact arithmetic; distinct by full event content."
-                % ("{0,2,3}" if quick else "{0,1,2,3,7}", "compound terms that some evaluator model equates" if quick else "all compound terms"))
+                % ("{0,2,3}" if quick else "{0,1,2,3,7}", "compound terms that some evaluator model equates" if quick else "compound terms (sums, differences, and all that some evaluator model equates)"))
     rep.assumptions = ["meaning of numerals/operators read off library/nat.json, int.json, real.json, transcendentals.json (see spec/C05_HolArith.tla); "
                        "int ^ nat taken as the standard power",
                        "NOT examined (never judged): irrational constants and functions (pi, exp, log, sin, ..., sqrt of a non-square), non-integer "
@@ -119,7 +118,7 @@ def run(rep, tier):
     for e in evs2:
         e["tid"] += RAND_BASE
     write_events(allp, evs + evs2)
-    v = validate_trace(TSPEC, allp, wd=wd / "tv", nchunks=3 if quick else 4)
+    v = validate_trace(TSPEC, allp, wd=wd / "tv", nchunks=2 if quick else 4)
 
     def part(lo, hi, n):
         d = {"consumed": n, "states": 0, "wall": v["wall"], "info": []}
